@@ -390,7 +390,17 @@ func (P *Program) VerifyFunc(fn *ssa.Function, fc *FuncContract) *FuncResult {
 			if e.Implicit {
 				continue
 			}
+			prevErr := s.Err
 			g := s.evalBool(post, e.E)
+			if prevErr == nil && s.Err != nil && strings.Contains(s.Err.Error(), "unknown identifier") {
+				// the postcondition names a variable the function does not have (any more): it
+				// cannot be established - reported as this clause failing, like a call-site
+				// clause in the same situation, instead of leaving the whole function undecided
+				src := e.Src + "   [" + s.Err.Error() + ": no such variable in the function]"
+				s.Err = nil
+				s.addObl(&Obligation{Name: shortKey(res.Key) + "#ensures:" + e.Label, Props: qualProps(fc, e), Kind: "ensures", Label: e.Label, Goal: "false", Src: src})
+				continue
+			}
 			s.addObl(&Obligation{Name: shortKey(res.Key) + "#ensures:" + e.Label, Props: qualProps(fc, e), Kind: "ensures", Label: e.Label, Goal: fmt.Sprintf("(=> %s %s)", out.Guard, g), Src: e.Src})
 			// accept-path cover for implications
 			if b, ok := e.E.(EBin); ok && b.Op == "==>" {
